@@ -68,6 +68,8 @@ class WfDef(object):
             return self._e("failed()")
         if cond in ("c0", "c1"):
             return self._e("succeeded() and result()." + cond)
+        if cond in ("raw0", "raw1"):
+            return self._e("result().c" + cond[-1])
         if isinstance(cond, tuple) and cond[0] == "lt":
             return self._e("succeeded() and ctx()." + cond[1] + " < " + str(cond[2]))
         if isinstance(cond, tuple) and cond[0] == "ge":
@@ -289,6 +291,11 @@ def _catalogue():
                  "a1": T([("ok", [("cfg", ("const", {"zone": "z1"}))], ["a2"])]), "a2": T(),
                  "b1": T([("ok", [("seen", ("expr", "ctx().cfg"))], ["b2"])]), "b2": T([("ok", [("keys", ("expr", "ctx().cfg.keys().orderBy($)"))], [])])},
         output=["seen", "keys"])
+    # D03r decision on raw (not necessarily boolean) result values
+    add("D03r", {"s": T([("raw0", [], ["a"]), ("raw1", [], ["b"])]), "a": T(), "b": T([("ok", [], ["c"])]), "c": T()})
+    # D11u with-items task behind an upstream task (rerun of the upstream task must run the items again)
+    add("D11u", {"t1": T([("ok", [], ["w"])]), "w": T([("ok", ["out"], ["z"])], items=3, conc=2), "z": T()},
+        inputs={"xs": [10, 11, 12]}, input_decl=["xs"], output=["out"])
     # D06p split routes with publishes
     add("D06p", {"s": T([("any", ["x"], ["a", "b"])]), "a": T([("any", ["y"], ["m"])]),
                  "b": T([("any", ["x"], ["m"])]), "m": T([("any", ["w"], ["n"])]), "n": T()},
@@ -315,15 +322,21 @@ CATALOGUE = _catalogue()
 
 
 def get(did):
+    if did not in CATALOGUE and did.startswith("W["):
+        # parametric with-items definitions are (re)built from their id in every process
+        import re as _re
+
+        m = _re.match(r"W\[n=(\d+),k=(None|-?\d+)(,expr)?(,sib)?(,dups)?\]", did)
+        items_def(int(m.group(1)), None if m.group(2) == "None" else int(m.group(2)), bool(m.group(3)), bool(m.group(4)), bool(m.group(5)))
     return CATALOGUE[did]
 
 
-def items_def(n, conc=None, conc_expr=False, sibling=False):
+def items_def(n, conc=None, conc_expr=False, sibling=False, dups=False):
     """With-items task over n items with the given concurrency (literal, or taken from the input k)."""
-    did = "W[n=%d,k=%s%s%s]" % (n, conc, ",expr" if conc_expr else "", ",sib" if sibling else "")
+    did = "W[n=%d,k=%s%s%s%s]" % (n, conc, ",expr" if conc_expr else "", ",sib" if sibling else "", ",dups" if dups else "")
     if did in CATALOGUE:
         return CATALOGUE[did]
-    inputs = {"xs": [10 + i for i in range(n)]}
+    inputs = {"xs": [10 + (i % 2 if dups else i) for i in range(n)]}
     decl = ["xs"]
     c = conc
     if conc_expr:
